@@ -87,6 +87,8 @@ HEADER = ('From Coq Require Import List NArith ZArith Bool PrimFloat.\n'
           'From T4V Require Import Base.Scalar C02.Vec C02.Spec C02.Model '
           'C02.Exec.\n')
 
+EVAL_HEADER = HEADER + 'Import ListNotations.\nOpen Scope float_scope.\n'
+
 MNEM = {'px': 'M_PX', 'py': 'M_PY', 'pz': 'M_PZ', 'p': 'M_P', 'so': 'M_SO',
         's': 'M_S', 'sx': 'M_SX', 'sy': 'M_SY', 'sz': 'M_SZ',
         'c/x': 'M_C_X', 'c/y': 'M_C_Y', 'c/z': 'M_C_Z', 'cx': 'M_CX',
@@ -925,7 +927,7 @@ def _run(res, tier, seed, proofs_ok):
             report_sweep_failure(res, mn, prm, hit[0], hit[1],
                                  'near a tie:mcnp disagreement')
             continue
-        model, _ = common.coq_eval(HEADER, f'to_surface_mcnp FS {MNEM[mn]} '
+        model, _ = common.coq_eval(EVAL_HEADER, f'to_surface_mcnp FS {MNEM[mn]} '
                                    + coq_floats(prm))
         res.violation('correspondence',
                       f'model and implementation disagree on the SurfaceMCNP '
@@ -950,7 +952,7 @@ def _run(res, tier, seed, proofs_ok):
             report_sweep_failure(res, mn, prm, hit[0], hit[1],
                                  'near a tie:card disagreement')
             continue
-        model, _ = common.coq_eval(HEADER, f'convert_card FS {MNEM[mn]} '
+        model, _ = common.coq_eval(EVAL_HEADER, f'convert_card FS {MNEM[mn]} '
                                    + coq_floats(prm))
         res.violation('correspondence',
                       f'model and implementation disagree on card {mn} {prm}: '
@@ -1208,7 +1210,7 @@ def replay(path):
         mcnp_out, coll_out = impl_card(mn, prm)
         print('implementation: SurfaceMCNP =', mcnp_out)
         print('implementation: collection  =', coll_out)
-        model, _ = common.coq_eval(HEADER, f'convert_card FS {MNEM[mn]} '
+        model, _ = common.coq_eval(EVAL_HEADER, f'convert_card FS {MNEM[mn]} '
                                    + coq_floats(prm))
         print('model convert_card:', model)
         status, detail = sweep_card(random.Random(0), mn, prm, 200, 30)
